@@ -30,7 +30,10 @@ func say(format string, a ...any) { os.Stdout.WriteString(fmt.Sprintf(format, a.
 
 const maxOut = 60
 
+// outputs consumes an iterator to exhaustion INCLUDING after errors (a gojq iterator may be advanced after an
+// error: `.[] | error` on [0,1] yields two errors); bounded by maxOut outputs and maxErr errors.
 func outputs(it gojq.Iter) (snaps []string, timedOut bool) {
+	nerr := 0
 	for {
 		v, ok := it.Next()
 		if !ok {
@@ -40,12 +43,31 @@ func outputs(it gojq.Iter) (snaps []string, timedOut bool) {
 			return snaps, true
 		}
 		snaps = append(snaps, c56.Snap(v))
-		if _, isErr := v.(error); isErr || len(snaps) >= maxOut {
+		if _, isErr := v.(error); isErr {
+			nerr++
+			if nerr >= maxErr {
+				return snaps, false
+			}
+		}
+		if len(snaps) >= maxOut {
 			return snaps, false
 		}
 	}
 }
 
+const maxErr = 12
+
+// errorPrograms emit several errors interleaved with values; they are consumed past the errors
+var errorPrograms = []string{
+	`.[]? | if (numbers | . % 2 == 0) then error else . end`, `.[]? | try error catch error`, `(1, error, 2)`, `(1, error("x"), 2, error("y"), 3)`,
+	`.[]? | error`, `.[]? | (., error, .)`, `[.[]? | try error catch .], (.[]? | error)`, `(error("x"), 1)`, `1, error({a: [1]}), 2`,
+	`.[]? | path(.a[0].b?), path(.. | error)?, (.a.b.c?), error`, `path(.[]? | error)`, `.[]? as $x | ($x | error), $x`,
+	`reduce (.[]? | if . == 2 then error else . end) as $x (0; . + 1), "after"`, `foreach (1, error("e"), 2) as $x (0; . + 1), "after"`,
+	`[limit(3; .[]? | error)], (.[]? | tostring | error)`, `.[]? | (label $f | (error, break $f)), .`, `first(.[]? | error), 1`, `(.[]? | tonumber?), (.[]? | tonumber)`,
+	`.[]? | (1 / (numbers | . - 1))?, (1 / .)?, error`, `(.a, .b, .c)? , (.[]? | .a), (.[]? | implode)`, `try (1, error("x"), 2) catch ., (3, error("y"), 4)`,
+	`.[]? | if type == "array" then .[] | error else error(type) end`, `def f: ., (if . < 3 then . + 1 | f else error("deep") end); 0 | f, f`,
+	`(.[]? | ltrimstr(1) | error)?, (.[]? | test("("))`, `.[]? | getpath(["a", "b"])?, getpath(["a", 0]), error(null), 1`,
+}
 var regexPrograms = []string{
 	`[.[]? | strings | test("a"), test("A"; "i"), test("b|c"), test("^x"; "g")]`,
 	`[.[]? | strings | [match("(a)(x)?"; "g")], [match("[abc]+")], [match(""; "g")] | length]`,
@@ -313,6 +335,10 @@ func runRace(c *Ctx) {
 		for i, p := range regexPrograms {
 			gen = append(gen, c56.Job{Program: p, Input: c56.Inputs[6], Origin: "regex", Vars: []string{vars}},
 				c56.Job{Program: p, Input: c56.Inputs[(i+4)%len(c56.Inputs)], Origin: "regex", Vars: []string{vars}})
+		}
+		for i, p := range errorPrograms {
+			gen = append(gen, c56.Job{Program: p, Input: c56.Inputs[5], Origin: "errors", Vars: []string{vars}},
+				c56.Job{Program: p, Input: c56.Inputs[(i+3)%len(c56.Inputs)], Origin: "errors", Vars: []string{vars}})
 		}
 		probeInputs := 1
 		if c.Tier == "thorough" {
